@@ -343,13 +343,21 @@ class MIOPopulation:
             return False
         if current.h < candidate.h:
             return True
+        # A target that is already fully covered (h == 1.0) keeps its archived solution
+        # unless the candidate is strictly better; in a not yet covered population the
+        # worst solution is replaced by any candidate that is not worse (MIO paper).
         return MIOPopulation._is_better_than_current(
-            current.test_case_chromosome, candidate.test_case_chromosome
+            current.test_case_chromosome,
+            candidate.test_case_chromosome,
+            strict=current.h == 1.0,
         )
 
     @staticmethod
     def _is_better_than_current(
-        current: tcc.TestCaseChromosome, candidate: tcc.TestCaseChromosome
+        current: tcc.TestCaseChromosome,
+        candidate: tcc.TestCaseChromosome,
+        *,
+        strict: bool = False,
     ) -> bool:
         current_result = current.get_last_execution_result()
         candidate_result = candidate.get_last_execution_result()
@@ -366,6 +374,8 @@ class MIOPopulation:
                 return True
 
         # Compare length otherwise
+        if strict:
+            return candidate.size() < current.size()
         return candidate.size() <= current.size()
         # TODO(fk) support other secondary objectives?
 
